@@ -48,14 +48,15 @@ META = {
         "insertion/removal/modification event, for every method except inline_block with arg_values "
         "(C11_events_complete_refuted).  No-stale (the worklist only holds non-erased ops, so no pattern is invoked "
         "on an erased op) is proved for every IR model satisfying LiveLaws; for the heap model its structural half "
-        "is proved for all thirteen primitives and C11_no_stale_model_partial leaves one hypothesis, InvLaws (a heap "
-        "invariant `users are live, the region walk yields live ops` preserved by the primitives).  The worklist of the model is C12's abstract set-stack.  Tie to "
+        "and the use-def half of its invariant (use lists name only live users, agree with the operand lists, have no "
+        "duplicates) are proved for all thirteen primitives, and C11_no_stale_model_partial leaves one hypothesis: "
+        "an invariant preserved by the primitives under which the region walk yields only live ops (tree consistency).  The worklist of the model is C12's abstract set-stack.  Tie to "
         "xdsl/pattern_rewriter.py, builder.py, rewriter.py: the action table is re-derived from the running code "
         "(every method on scratch IR) and scripted patterns are walked by the real driver in all 8 configurations "
         "with LIFO and seeded pop orders; invocation log, listener log, return value and final IR must be equal."),
     "level_note": (
         "Trusted: Coq kernel; hand-written model (coq/C11/Model.v, IR.v); correspondence harness; the heap "
-        "invariant InvLaws for the no-stale theorem (assumption, listed).  Not covered: post_walk_func, "
+        "tree-consistency half of InvLaws for the no-stale theorem (assumption, listed).  Not covered: post_walk_func, "
         "folding_enabled (Folder), safe_erase=False, name hints, successors / block uses, TypeConversionPattern, "
         "exceptions raised inside patterns, operations outside the rewritten region that get enqueued (the module op "
         "itself: the walker then raises ValueError), 'detached but not erased' ops (only reachable by a pattern that "
@@ -63,12 +64,12 @@ META = {
         "rewriter."),
 }
 COQ_TARGETS = ["C11/Enc.vo", "C11/Proofs.vo", "C11/ProofsIR.vo", "C11/ProofsWL.vo", "C11/ProofsEv.vo",
-               "C11/ProofsLive.vo", "Props/C11.vo"]
+               "C11/ProofsLive.vo", "C11/ProofsInv.vo", "Props/C11.vo"]
 REQ = ["C11.Model", "C11.IR", "C11.Enc"]
 ASSUMPTIONS = [
     "patterns are sequences of PatternRewriter calls computed from the IR (plus an in-place attribute update made only when has_done_action is set); they respect the documented preconditions of the methods (no exception, no dangling uses, regions returned by move_region_contents_to_new_regions are re-attached within the match)",
     "terminating pattern sets: the fuel of the modelled while loops is a parameter; theorems are about runs that return",
-    "InvLaws (C11/Proofs.v), the only law group not proved for the heap model, needed by C11_no_stale_model_partial: an invariant `wf` of the heap with `use lists name only live users` and `the region walk yields only live ops` that all thirteen primitives preserve (tree / use-def consistency of the IR edits, property C01's subject); shown satisfiable on a minimal model.  StructLaws (only erase kills ops and only op.walk(); inserted ops are alive) and EvLaws (which ops a primitive can create, kill or change the operands of) ARE proved for the heap model (ProofsLive.v, ProofsEv.v)",
+    "the tree half of InvLaws, the only law not proved for the heap model, needed by C11_no_stale_model_partial: some invariant under which `the region walk yields only live ops` and which all thirteen primitives preserve (parent/child consistency of the IR tree, property C01's subject); shown satisfiable on a minimal model.  Proved for the heap model for all thirteen primitives: StructLaws (only erase kills ops, and only op.walk(); inserted ops are alive), EvLaws (which ops a primitive can create, kill or change the operands of), and the use-def half of InvLaws (UInv: uses name live users, agree with the operand lists, no duplicates; insert for operations with new identifiers, replace_uses_with_if for two different values, as the rewriter calls them)",
     "FlagLaws (a use-replacing primitive over an empty / entirely filtered-out use list is the identity) is proved for the heap model (C11_flag_laws_hold_for_the_model)",
 ]
 TRUSTED = []
